@@ -1102,7 +1102,7 @@ func main() {
 	c.Floor("history_mutations", int64(c.N(3000, 60000))/sh, c.Counter("history_mutations"))
 	c.Floor("observe_mutate_observe", int64(c.N(1200, 24000))/sh, c.Counter("observe_mutate_observe"))
 	for _, kind := range []string{"Offer-grow", "Offer-nogrow", "AddAll-grow", "AddAll-nogrow", "AddAll-rejected"} {
-		c.Floor("observe_only_"+kind+"_observe", int64(c.N(48, 960))/sh, c.Counter("observe_only_"+kind+"_observe"))
+		c.Floor("observe_only_"+kind+"_observe", int64(c.N(32, 640))/sh, c.Counter("observe_only_"+kind+"_observe"))
 	}
 	for _, kind := range []string{"Merge-result", "Build"} {
 		c.Floor("first_observation_of_"+kind, int64(c.N(160, 3200))/sh, c.Counter("first_observation_of_"+kind))
